@@ -312,7 +312,7 @@ class TSL_largest_common_contiguous_block:
 # snaxc/dialects/tsl.py: the attribute's views of the layout
 # =====================================================================================
 from pyvc.api import den, implies, ite, mk_memref_value  # noqa: E402
-from xdsl.dialects.builtin import IndexType, IntegerType, MemRefType, StridedLayoutAttr  # noqa: E402
+from xdsl.dialects.builtin import DYNAMIC_INDEX, IndexType, IntegerType, MemRefType, StridedLayoutAttr  # noqa: E402
 
 from snaxc.dialects.tsl import TiledStridedLayoutAttr  # noqa: E402
 
@@ -362,10 +362,10 @@ def mk_memref_for(sym, tsl, el_bits, strided=False):
         outer = tsl.tstrides[d].strides[0].bound
         if outer is None:
             n = sym.int(f"N{d}", 1)
-            shape.append(-1)
+            shape.append(DYNAMIC_INDEX)
             rt_shape.append(n)
         else:
-            shape.append(-1 if not isinstance(outer * inner, int) else outer * inner)
+            shape.append(outer * inner)
             rt_shape.append(outer * inner)
     layout = TiledStridedLayoutAttr(tsl)
     rt_strides = None
